@@ -698,3 +698,25 @@ def c17_5(cx):
     cx.flow(si, si.origin_local(0), [r"^\(\(\$2 Shl const:7\) Shr \(const:core::num::<impl usize>::BITS(=\d+)? Sub(WithOverflow)? core::num::<impl usize>::trailing_zeros\(core::slice::<impl \[T\]>::len\(transmute\(\$1\.shards\.0\.pointer\)\)\)\)(\.0)?\)$"], [], "shard_index is a function of the hash and the (fixed) number of shards")
     sf = cx.fn(SY + r"SyncTable::shard_for$")
     cx.flow(sf, sf.origin_local(0), [r"^transmute\(\$1\.shards\.0\.pointer\)\[function::sync::SyncTable::shard_index\(\$1, \$2\)\]$", r"\$1\.shards.*\[function::sync::SyncTable::shard_index\(\$1, \$2\)\]"], [r"\[const:"], "shard_for = shards[shard_index(hash)]")
+
+
+@ob("C16.4", ["C16", "C08", "C09", "C19", "C24"], "`let _ = m.lock();` acquires and releases at once: the critical section it was meant to protect runs unlocked (a classic refactoring slip that compiles and passes single-threaded tests)", kind="GUARDTYPE (every guard protects something)")
+def c16_4(cx):
+    """Every Mutex::lock / RwLock::read|write in the crate returns a guard that is not dropped before anything else happens: between the acquisition and the guard's drop (or its move out of the function) at least one other statement or call executes on some path."""
+    n = 0
+    bad = 0
+    for b in cx.facts.all_bodies():
+        for lk in b.calls(r"^parking_lot::lock_api::(Mutex::<R, T>::lock|RwLock::<R, T>::(read|write))$"):
+            n += 1
+            g = lk.node()["dest"]["l"]
+            t = lk.node().get("t")
+            if t is None:
+                continue
+            blk = b.blocks[t]
+            # the guard is dropped at once iff the return block has no statements and its terminator drops the guard local
+            term = blk["term"]
+            immediate = (not blk["stmts"]) and term["k"] == "drop" and term["p"]["l"] == g and not term["p"]["pj"]
+            if immediate:
+                bad += 1
+            cx.check(not immediate, "the guard returned by %s is held across the code it protects (not dropped at once)" % b.callee(lk).split("::")[-1], lk, key="guard-held %s %d" % (b.path, lk.bb))
+    cx.require(n >= 10, "lock acquisitions in the crate (found %d)" % n)
